@@ -112,7 +112,7 @@ M("C03", "v2 right-to-left order dropped", F, "v2rewrite.py", "in sorted(replace
 M("C03", "v2 returns although patterns missing", F, "v2rewrite.py", "    if set(patterns) == found_patterns:\n        return new_lines", "    if found_patterns:\n        return new_lines", "R2")
 M("C03", "v1 raise turned into return", F, "v1rewrite.py", "        raise rewrite.NoPatternMatch(\"Invalid pattern(s)\")\n    else:\n        return new_lines", "        return new_lines\n    else:\n        return new_lines", "R2")
 M("C03", "iter_matches stops after first match per pattern", F, "parse.py", "            if not _has_overlap(needle_span, matched_spans):\n                yield match\n            matched_spans.append(needle_span)",
-  "            if not _has_overlap(needle_span, matched_spans):\n                yield match\n            matched_spans.append(needle_span)\n            break", "stop early")
+  "            if not _has_overlap(needle_span, matched_spans):\n                yield match\n            matched_spans.append(needle_span)\n            break", "overlaps nothing is dropped")
 M("C03", "overlap ignores the line number", F, "parse.py", "            span.lineno == needle.lineno\n            # needle starts before (or at) span end\n            and needle.start <= span.end",
   "            needle.start <= span.end", "_has_overlap")
 M("C03", "replacement rendered from the version pattern only", F, "v2rewrite.py", "replacement = v2version.format_version(new_vinfo, normalized_pattern)", "replacement = v2version.format_version(new_vinfo, match.pattern.version_pattern)", "own pattern")
